@@ -104,7 +104,7 @@ def run(ctx):
             ctx.selftest_fail('base path of %s/%s produced no landing point (tracer not armed?)' % (s['kind'], s['target']))
     for obs in runs:
         case = obs['case']
-        site = case.get('_site')
+        site = ((obs.get('landed') or [{}])[0].get('site')) or case.get('_site')      # where it really landed in this run
         ctx.count()
         ev = case.get('events') or [{}]
         ctx.distinct((case['kind'], case['target'], case.get('phase'), ev[0].get('k') if ev else None))
